@@ -259,15 +259,19 @@ func (c13) Run(t TestingT, scn json.RawMessage, tape *Tape) *Outcome {
 			opts.MaxEntries = 1
 		}
 		cache := graphql.NewPlanCache(opts)
-		if sc.Alt != "" {
-			// the reversed twin is cached first; with one entry the real document
-			// is then evicted by it once more
-			cache.Get(&w.Schema, sc.Alt, sc.Op)
+		if sc.Alt != "" && opts.MaxEntries == 1 {
+			// one entry: the document is cached, evicted by its reversed twin, and
+			// requested again
 			cache.Get(&w.Schema, sc.Query, sc.Op)
 			cache.Get(&w.Schema, sc.Alt, sc.Op)
+		} else if sc.Alt != "" {
+			// the reversed twin is cached first
+			cache.Get(&w.Schema, sc.Alt, sc.Op)
+			cache.Get(&w.Schema, sc.Query, sc.Op)
+		} else {
+			cache.Get(&w.Schema, sc.Query, sc.Op)
 		}
-		// the second Get is a hit (unless evicted): the plan that executes is the cached one
-		cache.Get(&w.Schema, sc.Query, sc.Op)
+		// (a hit unless just evicted): the plan that executes comes from the cache
 		pr := cache.Get(&w.Schema, sc.Query, sc.Op)
 		if pr.Plan == nil {
 			return &Outcome{Infra: "generated mutation is rejected by the plan cache: " + MarshalResult(&graphql.Result{Errors: pr.Errors}) + " query: " + sc.Query}
